@@ -203,13 +203,40 @@ def _colr_v0_glyph_to_svg(
         ttfont, view_box_callback, glyph_name
     )
     svg_root = _svg_root(view_box)
-    for glyph_layer in ttfont["COLR"].ColorLayers[glyph_name]:
+    for layer_glyph, palette_index in _colr_v0_layers(ttfont, glyph_name):
         svg_path = etree.SubElement(svg_root, "path")
-        paint = PaintSolid(_color(ttfont, glyph_layer.colorID))
+        paint = PaintSolid(_color(ttfont, palette_index))
         _apply_solid_paint(svg_path, paint)
-        _draw_svg_path(svg_path, glyph_set, glyph_layer.name, font_to_vbox)
+        _draw_svg_path(svg_path, glyph_set, layer_glyph, font_to_vbox)
 
     return svg_root
+
+
+def _colr_v0_records(ttfont: ttLib.TTFont) -> Dict[str, List[Tuple[str, int]]]:
+    """{base glyph: [(layer glyph, palette index), ...]} of the v0-style records.
+
+    A version 1 table may hold some, next to its BaseGlyphList."""
+    colr = ttfont["COLR"]
+    if colr.version == 0:
+        return {
+            base_glyph: [(l.name, l.colorID) for l in layers]
+            for base_glyph, layers in colr.ColorLayers.items()
+        }
+    base_records = getattr(colr.table, "BaseGlyphRecordArray", None)
+    if not base_records:
+        return {}
+    layer_records = colr.table.LayerRecordArray.LayerRecord
+    return {
+        r.BaseGlyph: [
+            (l.LayerGlyph, l.PaletteIndex)
+            for l in layer_records[r.FirstLayerIndex : r.FirstLayerIndex + r.NumLayers]
+        ]
+        for r in base_records.BaseGlyphRecord
+    }
+
+
+def _colr_v0_layers(ttfont: ttLib.TTFont, glyph_name: str) -> List[Tuple[str, int]]:
+    return _colr_v0_records(ttfont)[glyph_name]
 
 
 def _apply_transform(
@@ -397,7 +424,9 @@ def colr_glyphs(font: ttLib.TTFont) -> Iterable[int]:
             yield font.getGlyphID(glyph_name)
     else:
         assert colr.version == 1
-        assert not getattr(colr, "ColorLayers", ()), "TODO: mixed v0/v1 support"
+        # a version 1 table may hold v0-style records too
+        for glyph_name in _colr_v0_records(font):
+            yield font.getGlyphID(glyph_name)
         for base_glyph in font["COLR"].table.BaseGlyphList.BaseGlyphPaintRecord:
             yield font.getGlyphID(base_glyph.BaseGlyph)
 
@@ -412,7 +441,7 @@ def _colr_v0_to_svgs(
                 _colr_v0_glyph_to_svg(ttfont, glyph_set, view_box_callback, g)
             )
         )
-        for g in ttfont["COLR"].ColorLayers
+        for g in _colr_v0_records(ttfont)
     }
 
 
@@ -420,14 +449,19 @@ def _colr_v1_to_svgs(
     view_box_callback: ViewboxCallback, ttfont: ttLib.TTFont
 ) -> Dict[str, SVG]:
     glyph_set = ttfont.getGlyphSet()
-    return {
-        g.BaseGlyph: SVG.fromstring(
-            etree.tostring(
-                _colr_v1_glyph_to_svg(ttfont, glyph_set, view_box_callback, g)
+    # v0-style records of the version 1 table first, BaseGlyphList wins a tie
+    svgs = _colr_v0_to_svgs(view_box_callback, ttfont)
+    svgs.update(
+        {
+            g.BaseGlyph: SVG.fromstring(
+                etree.tostring(
+                    _colr_v1_glyph_to_svg(ttfont, glyph_set, view_box_callback, g)
+                )
             )
-        )
-        for g in ttfont["COLR"].table.BaseGlyphList.BaseGlyphPaintRecord
-    }
+            for g in ttfont["COLR"].table.BaseGlyphList.BaseGlyphPaintRecord
+        }
+    )
+    return svgs
 
 
 def colr_to_svg(
